@@ -8,6 +8,6 @@ Definition cancl_case_labels : list (list str) := [[[46;103;111]%N; [46;120;103;
 
 (* dirHash *)
 Definition dirhash_formats : list str := [[103;111;9;37;115;10]%N; [120;103;111;9;37;115;10]%N; [102;105;108;101;9;37;115;9;37;120;9;37;120;10]%N].
-Definition dirhash_format_args : list (list str) := [[[114;117;110;116;105;109;101;46;86;101;114;115;105;111;110;40;41]%N]; [[120;103;111;46;86;101;114;115;105;111;110]%N]; [[102;110;97;109;101]%N; [118;46;83;105;122;101;40;41]%N; [118;46;77;111;100;84;105;109;101;40;41;46;85;110;105;120;78;97;110;111;40;41]%N]].
+Definition dirhash_format_args : list (list str) := [[[95;46;86;101;114;115;105;111;110;40;41]%N]; [[95;46;86;101;114;115;105;111;110]%N]; [[95]%N; [95;46;83;105;122;101;40;41]%N; [95;46;77;111;100;84;105;109;101;40;41;46;85;110;105;120;78;97;110;111;40;41]%N]].
 Definition dirhash_prefix_literals : list str := [[95]%N].
 Definition dirhash_skips_dirs : bool := true.
